@@ -14,3 +14,9 @@ def run(rep, tier, seed):
     T.standard_campaign(rep, "C02", tier, seed)
     from harness.props import real_sched
     real_sched.campaign(rep, "C02", tier, seed)
+    # the simulator back-end half of the property: what fetch_status_results hands out in simulated tuning runs
+    from harness.props import c10, sim_tuner
+    sim_flags = {"result_after_stop", "level_not_consecutive", "result_for_unpolled_trial", "stamp_backwards",
+                 "beyond_max_resource", "value_not_from_table", "backend_raised"}
+    rep.extra["simulator_backend_flags"] = sim_tuner.campaign(
+        rep, tier, seed, lambda r, t, m, tag: c10.validate_traces(r, t, m, tag, flags=sim_flags))
